@@ -317,8 +317,7 @@ class DataclassAdapter(GenericCallAdapter):
         if isinstance(pos_or_name, str):
             return getattr(value, pos_or_name)
         else:
-            args = [field for field in fields(value) if field.init]
-            return getattr(value, args[pos_or_name].name)
+            return getattr(value, self.positional_names(value)[pos_or_name])
 
     @classmethod
     def positional_names(cls, value):
@@ -389,12 +388,11 @@ else:
 
         def argument(self, value, pos_or_name):
             if isinstance(pos_or_name, int):
-                args = [field for field in attrs.fields(type(value)) if field.init]
-                pos_or_name = args[pos_or_name].name
-            else:
-                for field in attrs.fields(type(value)):
-                    if self.init_name(field) == pos_or_name:
-                        pos_or_name = field.name
+                pos_or_name = self.positional_names(value)[pos_or_name]
+
+            for field in attrs.fields(type(value)):
+                if self.init_name(field) == pos_or_name:
+                    pos_or_name = field.name
             return getattr(value, pos_or_name)
 
 
